@@ -600,6 +600,134 @@ theorem wait_late_with_long_interval :
   revert this
   decide +kernel
 
+/-! ### the other reading of "the Wait started" (recorded interpretation, not a finding)
+
+`wait_window_default_interval` measures from the tick in which the Wait *began waiting* (`wait_start_time`, the
+run-log state "Started", what the repository's own tests measure).  The Wait's `started` flag (and the run-log
+item's start time) is one tick earlier, because of the unconditional EndTick of `visit_Node`.  Measured from
+there the successor starts `(k+2)·Δ` later: inside `[d, d+Δ]` only if `d` is a multiple of the interval (and
+then at the upper edge, so that float rounding of `(start + d) − 0.1` on the real engine pushes it out: measured
+`d + 2Δ` for d ≥ 0.3 s). -/
+
+/-- measured from the tick in which the Wait itself got started (one tick before it begins waiting) the successor
+    starts `(k+2)·Δ` later -/
+def C03_wait_window_from_own_start : Prop :=
+  ∀ (t0 d : Rat) (k : Nat), 1/10 ≤ d →
+    t0 + d - 1/10 ≤ t0 + (k : Rat) * (1/10) →
+    (∀ j : Nat, j < k → t0 + (j : Rat) * (1/10) < t0 + d - 1/10) →
+    d ≤ ((k : Rat) + 2) * (1/10) ∧ ((k : Rat) + 2) * (1/10) ≤ d + 1/10
+
+theorem C03_wait_window_from_own_start_counterexample : ¬ C03_wait_window_from_own_start := by
+  intro h
+  have := h 0 (1/4) 2 (by decide +kernel) (by decide +kernel) (by
+    intro j hj
+    have : j ≤ 1 := by omega
+    have h2 : (j : Rat) ≤ 1 := by exact_mod_cast this
+    grind)
+  revert this
+  decide +kernel
+
+theorem wait_window_from_own_start_on_grid (t0 : Rat) (m k : Nat) (hm : 1 ≤ m)
+    (hexit : t0 + (m : Rat) * (1/10) - 1/10 ≤ t0 + (k : Rat) * (1/10))
+    (hfirst : ∀ j : Nat, j < k → t0 + (j : Rat) * (1/10) < t0 + (m : Rat) * (1/10) - 1/10) :
+    (m : Rat) * (1/10) ≤ ((k : Rat) + 2) * (1/10) ∧ ((k : Rat) + 2) * (1/10) ≤ (m : Rat) * (1/10) + 1/10 := by
+  have hkm : k + 1 ≤ m := by
+    by_cases hk : 0 < k
+    · obtain ⟨k', rfl⟩ : ∃ k', k = k' + 1 := ⟨k - 1, by omega⟩
+      have := hfirst k' (by omega)
+      have h3 : (k' : Rat) + 1 < (m : Rat) := by grind
+      have h4 : ((k' + 1 : Nat) : Rat) < (m : Rat) := by
+        have e : ((k' + 1 : Nat) : Rat) = (k' : Rat) + 1 := by simp
+        rw [e]; exact h3
+      have : k' + 1 < m := by exact_mod_cast h4
+      omega
+    · omega
+  have h5 : ((k + 1 : Nat) : Rat) ≤ (m : Rat) := by exact_mod_cast hkm
+  have e : ((k + 1 : Nat) : Rat) = (k : Rat) + 1 := by simp
+  rw [e] at h5
+  constructor <;> grind
+
+/-! ## the full first clause, its counter-example, and the partial theorem
+
+The first clause of C03 at full strength has no "completed" escape: an instruction with a threshold
+starts only if it is forced or its clock has reached `T`.  `_is_awaiting_threshold` returns `False` for a
+node whose `completed` flag is set, and the command manager sets `completed` on a *re-armed* command
+line when the long-running command of the previous Alarm invocation completes
+(`tracking.mark_completed(request)` updates the node of the record, whatever invocation the request
+belongs to).  The line then starts at once.  Reproduced on the real engine (findings.d/C03.json). -/
+
+/-- C03, first clause, full strength (micro-step form, reachable states): no `completed` escape. -/
+def C03_threshold_full : Prop :=
+  ∀ (p : Prog) (s0 : St) (i : TickIn) (s : St) (stack : List Frame) (k : Nat) (T : Rat),
+    Reachable p s0 → Within p (tickStart s0 i) s →
+    (node p k).threshold = some T → (node p k).kind ≠ .blank false →
+    (s.rt k).started = false → (((stepGen p s stack).1).rt k).started = true →
+    (s.rt k).forced = true ∨ T * s.baseFactor ≤ thrClock s
+
+/-- What holds: the same with the hypothesis that the node is not `completed` when the wrapper evaluates
+    the threshold (for every method and every state, reachable or not). -/
+theorem C03_threshold_partial (p : Prog) (s : St) (stack : List Frame) (k : Nat) (T : Rat)
+    (hT : (node p k).threshold = some T) (hnb : (node p k).kind ≠ .blank false)
+    (hnc : (s.rt k).completed = false)
+    (h0 : (s.rt k).started = false) (h1 : (((stepGen p s stack).1).rt k).started = true) :
+    (s.rt k).forced = true ∨ T * s.baseFactor ≤ thrClock s := by
+  rcases start_flag_guard_step p s stack k h0 h1 with ⟨_, hc | hn | hf | ⟨T', hT', hle⟩⟩ | ⟨pc, _, hb⟩
+  · rw [hnc] at hc; cases hc
+  · rw [hT] at hn; cases hn
+  · exact Or.inl hf
+  · rw [hT] at hT'; cases hT'; exact Or.inr hle
+  · exact absurd hb hnb
+
+/-- `Alarm: T0 >= 1` with the body `0.03125 CmdC` (base unit min: 1.875 s). -/
+def alarmDemo : Prog := #[
+  { kind := .program, parent := none, children := [1], threshold := none, keyPath := [0] },
+  { kind := .alarm ⟨0, .ge, 1⟩, parent := some 0, children := [2], threshold := none, keyPath := [0, 1] },
+  { kind := .cmd "CmdC" false, parent := some 1, children := [], threshold := some (1/32), keyPath := [0, 1, 2] }]
+
+/-- ticks with the given Scope/Block clock values, condition tag T0 = 1 -/
+def alarmRun (clocks : List Rat) : St :=
+  clocks.foldl (fun s c => (tick alarmDemo s ⟨0, c, c, [1]⟩).1) (init alarmDemo)
+
+theorem alarmRun_reachable (clocks : List Rat) : Reachable alarmDemo (alarmRun clocks) := by
+  unfold alarmRun
+  suffices h : ∀ (l : List Rat) (s : St), Reachable alarmDemo s →
+      Reachable alarmDemo (l.foldl (fun s c => (tick alarmDemo s ⟨0, c, c, [1]⟩).1) s) from
+    h clocks _ Reachable.init
+  intro l
+  induction l with
+  | nil => intro s h; exact h
+  | cons c l ih => intro s h; exact ih _ (Reachable.tick _ _ h)
+
+/-- The state before the offending tick: first invocation with the clock at 2 s (threshold passed, command handed
+    to the engine, Alarm re-armed), second invocation waiting at clock 0.1 s, then the engine reports the
+    completion of the first invocation's command. -/
+def alarmWitness : St := completeCmd (alarmRun [2, 2, 2, 2, 2, 2, 2, 1/10, 1/10, 1/10]) 2
+
+/-- In the witness state the interrupt generator of the Alarm stands at the threshold point of the command line,
+    which is not started, not forced, marked completed; one micro-step with the clocks at 0.2 s starts it although
+    `1/32 min = 1.875 s` has not been reached. -/
+theorem C03_threshold_counterexample : ¬ C03_threshold_full := by
+  intro h
+  have hr : Reachable alarmDemo alarmWitness :=
+    Reachable.complete _ 2 (alarmRun_reachable _) (by decide +kernel)
+  have := h alarmDemo alarmWitness ⟨0, 2/10, 2/10, [1]⟩ (tickStart alarmWitness ⟨0, 2/10, 2/10, [1]⟩)
+    [.wrapThr 2, .children 1 0 true, .body 1 3, .wrapAfter 1] 2 (1/32) hr (Within.refl _)
+    (by decide +kernel)
+    (by intro hk; have e : (node alarmDemo 2).kind = .cmd "CmdC" false := rfl
+        rw [e] at hk; cases hk)
+    (by decide +kernel) (by decide +kernel)
+  revert this
+  decide +kernel
+
+/-- the stack used above is the stored stack of the Alarm's generator in the witness state, and the following two
+    ticks emit `start 2` and hand the command to the engine again -/
+example : (alarmWitness.gens.map (·.stack)).contains [.wrapThr 2, .children 1 0 true, .body 1 3, .wrapAfter 1] = true ∧
+    (alarmWitness.rt 2).completed = true ∧ (alarmWitness.rt 2).started = false ∧
+    Event.start 2 ∈ (tick alarmDemo alarmWitness ⟨0, 2/10, 2/10, [1]⟩).1.events ∧
+    Event.effect 2 "cmd:CmdC" ∈
+      (tick alarmDemo (tick alarmDemo alarmWitness ⟨0, 2/10, 2/10, [1]⟩).1 ⟨0, 3/10, 3/10, [1]⟩).1.events := by
+  decide +kernel
+
 /-! ## non-vacuity: a concrete method run in the kernel -/
 
 /-- `Base: s / Mark: a / 1.5 Mark: b / Wait: 0.5s / Mark: c` -/
@@ -638,6 +766,22 @@ example : ((demoRun (1/8) 14).rt 4).started = false ∧ ((demoRun (1/8) 15).rt 4
     ((demoRun (1/8) 16).rt 4).waitStart = some 2 ∧
     ((demoRun (1/8) 19).rt 4).completed = false ∧ ((demoRun (1/8) 20).rt 4).completed = true ∧
     ((demoRun (1/8) 20).rt 5).started = false ∧ ((demoRun (1/8) 21).rt 5).started = true := by
+  decide +kernel
+
+/-- the same method with `Wait: 0.25s` -/
+def demoQ : Prog := demo.set! 4 { kind := .wait (1/4), parent := some 0, children := [], threshold := none, keyPath := [0, 4] }
+
+def demoQRun (k : Nat) : St :=
+  (List.range k).foldl (fun s j => (tick demoQ s ⟨(j + 1 : Nat) * (1/10), (j : Nat) * (1/10), (j : Nat) * (1/10), []⟩).1)
+    (init demoQ)
+
+/-- Δ = 1/10, `Wait: 0.25s`: `started` in tick 18, waiting from tick 19, completed in tick 21 (2.1 ≥ 1.9 + 0.15),
+    `Mark: c` started in tick 22: 0.3 s after the Wait began waiting (inside [0.25, 0.35]), 0.4 s after its
+    `started` flag (outside) — `C03_wait_window_from_own_start_counterexample` on a run of the model. -/
+example : ((demoQRun 17).rt 4).started = false ∧ ((demoQRun 18).rt 4).started = true ∧
+    ((demoQRun 19).rt 4).waitStart = some (19/10) ∧
+    ((demoQRun 20).rt 4).completed = false ∧ ((demoQRun 21).rt 4).completed = true ∧
+    ((demoQRun 21).rt 5).started = false ∧ ((demoQRun 22).rt 5).started = true := by
   decide +kernel
 
 theorem demoRun_reachable (Δ : Rat) (k : Nat) : Reachable demo (demoRun Δ k) := by
